@@ -10,9 +10,12 @@
   `IdealSig S` (soundness theorems: message binding, key binding) — hypotheses, never axioms; the toy
   scheme at the end of the file satisfies all of them.
 
-  Domain: JSON objects with distinct keys (`UniqueKeys`; C01's domain).  The hypothesis is carried by the
-  theorems even where the proof about the model does not need it: for objects with duplicate keys the model
-  is not tied to the code (sjson deletes the first duplicate, Go maps keep the last).  Top-level case
+  Domain: the value-level theorems are about JSON objects with distinct keys (`UniqueKeys`; C01's domain).  Since
+  the K7 repair that is no restriction of the claim: `SignJSON` / `VerifyJSON` refuse every message with duplicate
+  member names, lone surrogate escapes or invalid UTF-8 before reading it (`checkStrictJSON`; models `signJSONText` /
+  `verifyJSONText`), see "The text gate" below — `ambiguous_never_signed`, `ambiguous_never_verifies`,
+  `gate_uniqueKeys`, `verify_text_sound_tamper`.  (Before it, sjson deleted the first duplicate while Go maps kept the
+  last, and tampered objects verified exactly on the texts these theorems did not speak about.)  Top-level case
   variants such as "Signatures" are ordinary signed members (the code reads the two members by exact name
   since /repo 0fb2afd), so no theorem needs a side condition about them.
 -/
@@ -288,6 +291,117 @@ theorem verify_iff (S : SigScheme) (n k pk : Bytes) (o : List (Bytes × JVal)) :
   | noSigs => simp [verifyCore]
   | noSig => simp [verifyCore]
 
+/-! ### The text gate: a message its readers disagree on is never signed and never verifies
+
+`signJSONText` / `verifyJSONText` are the models of `SignJSON` / `VerifyJSON` on the message TEXT: the gate
+`checkStrictJSON` (/repo fix "SignJSON and VerifyJSON refuse JSON their readers disagree on"), then the
+value-level functions above.  Texts with duplicate member names, lone surrogate escapes or invalid UTF-8
+used to be outside every statement of this file (`skip` in the correspondence) — and exactly there the
+code accepted tampered objects.  They are inside now: refused, whatever the keys and the scheme. -/
+
+/-- What `verifyJSONText` accepts: the text parses, passes the gate, and the value verifies. -/
+theorem verifyText_iff (S : SigScheme) (n k pk t : Bytes) :
+    verifyJSONText S n k pk t = .ok () ↔
+      ∃ p, parse t = some p ∧ p.wellFormed = true ∧ p.noDupKeys = true ∧ verifyJSON S n k pk p.toJVal = .ok () := by
+  unfold verifyJSONText
+  cases hp : parse t with
+  | none => simp [errAmbiguous]
+  | some p =>
+    by_cases hg : (p.wellFormed && p.noDupKeys) = true
+    · have hg' : p.wellFormed = true ∧ p.noDupKeys = true := by simpa using hg
+      simp only [hg, Bool.not_true, Bool.false_eq_true, if_false]
+      constructor
+      · intro h; exact ⟨p, rfl, hg'.1, hg'.2, h⟩
+      · rintro ⟨p', hp', _, _, h⟩
+        cases hp'; exact h
+    · have hg0 : (p.wellFormed && p.noDupKeys) = false := by simpa using hg
+      simp only [hg0, Bool.not_false, if_true, errAmbiguous]
+      constructor
+      · intro h; cases h
+      · rintro ⟨p', hp', hw, hd, _⟩
+        cases hp'
+        rw [hw, hd] at hg0; cases hg0
+
+/-- What `signJSONText` signs: the text parses, passes the gate, and the value is signed. -/
+theorem signText_ok (S : SigScheme) (n k : Bytes) (sk : S.SK) (t : Bytes) (v' : JVal)
+    (h : signJSONText S n k sk t = .ok v') :
+    ∃ p, parse t = some p ∧ p.wellFormed = true ∧ p.noDupKeys = true ∧ signJSON S n k sk p.toJVal = .ok v' := by
+  unfold signJSONText at h
+  cases hp : parse t with
+  | none => simp [hp, errAmbiguous] at h
+  | some p =>
+    simp only [hp] at h
+    by_cases hg : (p.wellFormed && p.noDupKeys) = true
+    · have hg' : p.wellFormed = true ∧ p.noDupKeys = true := by simpa using hg
+      simp only [hg, Bool.not_true, Bool.false_eq_true, if_false] at h
+      exact ⟨p, rfl, hg'.1, hg'.2, h⟩
+    · have hg0 : (p.wellFormed && p.noDupKeys) = false := by simpa using hg
+      simp [hg0, errAmbiguous] at h
+
+/-- **A text with a duplicate member name (any depth, `signatures` / `unsigned` included), a lone surrogate
+    escape or invalid UTF-8 in any string or member name — or no JSON at all — never verifies**: for every
+    scheme, name, key ID and key. -/
+theorem ambiguous_never_verifies (S : SigScheme) (n k pk t : Bytes) (h : strictJSON t = false) :
+    verifyJSONText S n k pk t ≠ .ok () := by
+  intro hv
+  obtain ⟨p, hp, hw, hd, _⟩ := (verifyText_iff S n k pk t).1 hv
+  simp [strictJSON, hp, hw, hd] at h
+
+/-- **… and is never signed.** -/
+theorem ambiguous_never_signed (S : SigScheme) (n k : Bytes) (sk : S.SK) (t : Bytes) (h : strictJSON t = false)
+    (v' : JVal) : signJSONText S n k sk t ≠ .ok v' := by
+  intro hs
+  obtain ⟨p, hp, hw, hd, _⟩ := signText_ok S n k sk t v' hs
+  simp [strictJSON, hp, hw, hd] at h
+
+/-- The two classes by name: duplicate keys / ill-formed Unicode somewhere in the parsed text. -/
+theorem dup_or_illformed_never_verifies (S : SigScheme) (n k pk t : Bytes) (p : PVal) (hp : parse t = some p)
+    (h : p.noDupKeys = false ∨ p.wellFormed = false) : verifyJSONText S n k pk t ≠ .ok () := by
+  apply ambiguous_never_verifies
+  rcases h with h | h <;> simp [strictJSON, hp, h]
+
+theorem noDupIn_nodup : ∀ ks : List Bytes, noDupIn ks = true → ks.Nodup
+  | [], _ => List.nodup_nil
+  | k :: ks, h => by
+    simp only [noDupIn, Bool.and_eq_true, Bool.not_eq_true', List.contains_eq_mem, decide_eq_false_iff_not] at h
+    exact List.nodup_cons.2 ⟨h.1, noDupIn_nodup ks h.2⟩
+
+/-- What passes the gate has distinct top-level member names: the `UniqueKeys` hypothesis of the value-level
+    theorems is discharged by the gate for every message SignJSON / VerifyJSON go on to read. -/
+theorem gate_uniqueKeys (t : Bytes) (p : PVal) (o : List (Bytes × JVal)) (_hp : parse t = some p)
+    (hd : p.noDupKeys = true) (ho : p.toJVal = .obj o) : UniqueKeys o := by
+  have h := noDupKeys_toJVal p
+  rw [ho, hd] at h
+  simp only [JVal.noDupKeys, Bool.and_eq_true] at h
+  have := noDupIn_nodup _ h.1
+  unfold UniqueKeys
+  rw [List.nodup_iff_pairwise_ne, List.pairwise_map] at this
+  exact this
+
+theorem numsOk_body (o : List (Bytes × JVal)) (h : (JVal.obj o).numsOk = true) : (JVal.obj (body o)).numsOk = true := by
+  simp only [JVal.numsOk, numsOkMembers_eq_all, List.all_eq_true] at h ⊢
+  intro kv hkv
+  exact h kv (mem_body hkv)
+
+/-- **Tampering, at the level of texts**: `t''` is ANY text presented for verification that still carries, at
+    (name, kid), the signature made over the object `t` denotes, while its signed members denote another value
+    (member order and the spelling `-0` aside).  It does not verify under any key — with no side condition on
+    either text: the number literals are grammatical because the texts parse, and a `t''` with duplicate names
+    or ill-formed Unicode is refused by the gate before its signature is looked at. -/
+theorem verify_text_sound_tamper (S : SigScheme) (hS : IdealSig S) (n k : Bytes) (sk : S.SK)
+    (t t'' : Bytes) (p p'' : PVal) (o o'' : List (Bytes × JVal))
+    (hp : parse t = some p) (ho : p.toJVal = .obj o) (hp'' : parse t'' = some p'') (ho'' : p''.toJVal = .obj o'')
+    (hsig : sigLookup o'' n k = .found (S.sign sk (payload o)))
+    (hdiff : (JVal.obj (body o'')).sorted.normNums ≠ (JVal.obj (body o)).sorted.normNums) (pk'' : Bytes) :
+    verifyJSONText S n k pk'' t'' ≠ .ok () := by
+  intro hv
+  obtain ⟨q, hq, _, _, hvq⟩ := (verifyText_iff S n k pk'' t'').1 hv
+  rw [hp''] at hq; cases hq
+  rw [ho''] at hvq
+  have hn : (JVal.obj o).numsOk = true := by rw [← ho]; exact parse_numsOk hp
+  have hn'' : (JVal.obj o'').numsOk = true := by rw [← ho'']; exact parse_numsOk hp''
+  exact verify_sound_tamper S hS n k sk o o'' (numsOk_body o hn) (numsOk_body o'' hn'') hsig hdiff pk'' hvq
+
 /-! ### ListKeyIDs -/
 
 /-- **On a signed object, `ListKeyIDs(name')` lists exactly the key IDs under which VerifyJSON finds a
@@ -386,6 +500,47 @@ def sigAtAfterSigning (o : List (Bytes × JVal)) (n' k' : Bytes) : Option Bytes 
 example : sigAtAfterSigning caseVariantWitness b!"evil" b!"k" = none ∧
     (sigAtAfterSigning caseVariantWitness b!"srv" b!"ed25519:1").isSome = true ∧
     (body caseVariantWitness).length = 2 := by
+  decide
+
+/-! ### The inputs on which VerifyJSON / SignJSON used to go wrong (K7), now refused — for every scheme and key -/
+
+/-- `"a":"ab"` rewritten to `"a":"a\ud800b"` under the old signature: CompactJSON dropped the lone surrogate. -/
+def k7LoneSurrogate : Bytes := b!"{\"a\":\"a\\ud800b\",\"n\":{\"x\":1},\"signatures\":{\"srv\":{\"ed25519:1\":\"AAAA\"}}}"
+/-- a duplicate member placed first: encoding/json kept the last (signed) one, gjson reads `EVIL` -/
+def k7DuplicateFirst : Bytes := b!"{\"a\":\"EVIL\",\"a\":\"ab\",\"n\":{\"x\":1},\"signatures\":{\"srv\":{\"ed25519:1\":\"AAAA\"}}}"
+/-- the same with the name respelled -/
+def k7DuplicateRespelled : Bytes := b!"{\"\\u0061\":\"EVIL\",\"a\":\"ab\",\"signatures\":{\"srv\":{\"ed25519:1\":\"AAAA\"}}}"
+/-- a lone surrogate in a nested member name -/
+def k7NestedName : Bytes := b!"{\"a\":\"ab\",\"n\":{\"x\\udfff\":1},\"signatures\":{\"srv\":{\"ed25519:1\":\"AAAA\"}}}"
+/-- a second `signatures` member placed first -/
+def k7SecondSignatures : Bytes := b!"{\"signatures\":{},\"a\":\"ab\",\"signatures\":{\"srv\":{\"ed25519:1\":\"AAAA\"}}}"
+/-- a nested duplicate, as SignJSON used to sign it -/
+def k7NestedDuplicate : Bytes := b!"{\"n\":{\"x\":1,\"x\":2}}"
+/-- invalid UTF-8 in a member name (encoding/json read U+FFFD) -/
+def k7InvalidUtf8Name : Bytes := [0x7B, 0x22, 0xFF, 0x22, 0x3A, 0x31, 0x7D]
+
+example : strictJSON k7LoneSurrogate = false ∧ strictJSON k7DuplicateFirst = false ∧ strictJSON k7DuplicateRespelled = false ∧
+    strictJSON k7NestedName = false ∧ strictJSON k7SecondSignatures = false ∧ strictJSON k7NestedDuplicate = false ∧
+    strictJSON k7InvalidUtf8Name = false := by
+  decide
+
+example (S : SigScheme) (n k pk : Bytes) : verifyJSONText S n k pk k7LoneSurrogate ≠ .ok () ∧
+    verifyJSONText S n k pk k7DuplicateFirst ≠ .ok () ∧ verifyJSONText S n k pk k7SecondSignatures ≠ .ok () :=
+  ⟨ambiguous_never_verifies S n k pk _ (by decide), ambiguous_never_verifies S n k pk _ (by decide),
+   ambiguous_never_verifies S n k pk _ (by decide)⟩
+
+example (S : SigScheme) (n k : Bytes) (sk : S.SK) (v' : JVal) : signJSONText S n k sk k7NestedDuplicate ≠ .ok v' :=
+  ambiguous_never_signed S n k sk _ (by decide) v'
+
+/-- the gate lets well-formed texts through — a proper surrogate pair included — and the text-level functions then
+    agree with the value-level ones: sign a text, verify the canonical bytes of the result -/
+def pairText : Bytes := b!"{\"a\":\"\\ud83d\\ude00\",\"n\":{\"x\":1}}"
+
+example : strictJSON pairText = true ∧
+    (match signJSONText toyScheme b!"srv" b!"ed25519:1" (7 : UInt8) pairText with
+     | .ok v => accepted (verifyJSONText toyScheme b!"srv" b!"ed25519:1" [7] (encodeCanon v)) &&
+                !accepted (verifyJSONText toyScheme b!"srv" b!"ed25519:1" [8] (encodeCanon v))
+     | .error _ => false) = true := by
   decide
 
 end V.C02
